@@ -2,7 +2,7 @@ import collections
 import copy
 
 from types import CodeType
-from typing import Any, Dict, List, Optional, Mapping, Iterator
+from typing import Any, Dict, Hashable, List, Optional, Mapping, Iterator
 
 from . import Evaluator
 from ..exceptions import CodeEvaluationError
@@ -108,11 +108,26 @@ class PythonEvaluator(Evaluator):
         self._executable_code = {}  # type: Dict[str, CodeType]
 
         # Frozen context for __old__
-        self._memory = {}  # type: Dict[int, FrozenContext]
+        self._memory = {}  # type: Dict[Hashable, FrozenContext]
 
     @property
     def context(self) -> Mapping:
         return self._context
+
+    @staticmethod
+    def _memory_key(obj) -> Hashable:
+        """
+        Key under which the frozen context (__old__) of given state or transition is stored.
+        The key does not depend on the identity of *obj*, so that it remains valid
+        when the evaluator (and its interpreter) is pickled or copied.
+
+        :param obj: a state or a transition
+        :return: a hashable key
+        """
+        if isinstance(obj, Transition):
+            return ('transition', obj.source, obj.target, obj.event, obj.guard, obj.action,
+                    obj.priority)
+        return ('state', obj.name)
 
     def _setdefault(self, name: str, value: Any) -> Any:
         """
@@ -227,7 +242,7 @@ class PythonEvaluator(Evaluator):
 
         # Deal with __old__ in contracts, only required if there is an invariant or a postcondition
         if len(getattr(obj, 'invariants', [])) > 0 or len(getattr(obj, 'postconditions', [])) > 0:
-            self._memory[id(obj)] = FrozenContext(self._context)
+            self._memory[self._memory_key(obj)] = FrozenContext(self._context)
 
         return filter(
             lambda c: not self._evaluate_code(c, additional_context=additional_context),
@@ -247,7 +262,7 @@ class PythonEvaluator(Evaluator):
 
         additional_context = {
             '__old__': self._memory.get(
-                id(obj),
+                self._memory_key(obj),
                 None),
             'after': (
                 lambda seconds: self._interpreter.time - seconds
@@ -284,7 +299,7 @@ class PythonEvaluator(Evaluator):
 
         additional_context = {
             '__old__': self._memory.get(
-                id(obj),
+                self._memory_key(obj),
                 None),
             'after': (
                 lambda seconds: self._interpreter.time - seconds
